@@ -95,3 +95,14 @@ PROPS["C02"] = {
     "trusted_base": TB_COMMON + ["modelled not verified: sequential atomics; the hystrix opener's start time pinned to the clock origin by the harness"],
     "assumptions": ["the iff theorem is stated for non-negative, non-decreasing timestamps (one unambiguous window); other orders are covered by the model correspondence only"],
 }
+
+def sig_c03(spec):
+    return "F-C03-stale" if spec.startswith("!stale:") else None
+
+PROPS["C03"] = {
+    "components": [Seq("closer", 2500, 100000, signature=sig_c03), CircuitSeq("C03", ["run", "ev", "open"], 1500, 60000)],
+    "rule": "closer: op sequences on hystrix.Closer (Opened/Closed, Allow with timestamps at the window end +-1 / stale / ahead, run events of all kinds, ShouldClose, timer callbacks incl. stale ones, live SleepWindow/HalfOpenAttempts/Required changes); "
+            "non-trivial = a callback fired AND a transition AND an admission attempt at the window boundary or with a stale reading. circuit: shared circuit histories judged by the C03 book (sleep window, span bound, closing rule) when the closer is hystrix",
+    "trusted_base": TB_CIRCUIT + ["timer callbacks as explicit environment steps (injected AfterFunc)"],
+    "assumptions": ["the literal span bound for budgets >= 2 is claimed only when start readings reach the gate in non-decreasing order (otherwise: finding F-C03-stale)"],
+}
